@@ -76,5 +76,5 @@ Section SonicLC.
   Definition s_check_combinations (vk : SVKey) (lcs : list lcomb) (cs : list (N * (F * option nat))) (qs : list query)
              (ev : evals) (pfs : list Proof) (chal vtape : list F) : res (bool * list F * nat) :=
     do r <- slc_verifier_all (s_comm_map cs) lcs (evals_map ev);
-    s_batch_check vk (fst r) qs (snd r) pfs chal vtape.
+    s_batch_check_m vk (fst r) qs (snd r) pfs chal vtape.       (* the adjusted BTreeMap is handed over as it is *)
 End SonicLC.
